@@ -235,12 +235,11 @@ end
 
 /-! ### well-formedness -/
 
-/-- a literal is written correctly: special characters escaped, others plain; inside a
-parenthesised argument `)` must use the backslash form (F6: `))` closes the argument) -/
-def wfLit (inArg : Bool) (l : Lit) : Bool :=
-  if isSpecial l.c then
-    l.esc != .plain && !(inArg && l.c == ')' && l.esc == .doubled)
-  else l.esc == .plain
+/-- a literal is written correctly: special characters escaped (doubled or with a backslash —
+since the repair of F6a also `))` inside a parenthesised argument), others plain. `inArg` is kept
+for the historical reading only and no longer matters. -/
+def wfLit (_inArg : Bool) (l : Lit) : Bool :=
+  if isSpecial l.c then l.esc != .plain else l.esc == .plain
 
 /-- an ordinary character written as itself -/
 def plainLit (l : Lit) : Bool := !isSpecial l.c && l.esc == .plain
@@ -284,7 +283,7 @@ def wfPats (bits : Nat) (inArg : Bool) : List Pat → Bool
 end
 
 /-- well-formed pattern (top level) for a profile's word size: special characters escaped; inside a
-parenthesised argument `)` written `\\)` (F6a, still a finding: `))` closes the argument); MDC key
+parenthesised argument too `)` may be written `\\)` or `))` (since the repair of F6a); MDC key
 and default non-empty literal text (escaped specials allowed since the repair of F6b); every
 formatter and alias, `thread_id` included (since the repair of F5); widths fit the word and
 `min_width ≤ max_width`. -/
